@@ -625,6 +625,8 @@ def np_call(ev, name, args, kwargs, node):
         return conj([np_call(ev, "all", [d_], {}, node) for d_ in as_v(ev, A[0]).args])
     if name in ("any", "all") and len(A) == 1 and not kwargs:
         x0 = as_v(ev, A[0])
+        if isinstance(x0, Const) and isinstance(x0.value, bool):
+            return x0       # np.all(True) / np.any(False): a scalar truth value
         if isinstance(x0, Vec) and x0.items and all(is_boolish(i) for i in x0.items):
             return disj(list(x0.items)) if name == "any" else conj(list(x0.items))
     if name in ("abs", "absolute", "fabs"):
@@ -1080,6 +1082,9 @@ def value_attr(ev, v, name, node):
             for tg, k in (("float", "f"), ("int", "i"), ("bool", "b")):
                 if tg in src.tags and "array" not in src.tags:
                     return Const(k)
+        if is_const(src) and isinstance(const_of(src), (bool, int, float, Fraction)):
+            cv = const_of(src)      # np.asarray(0.05).dtype.kind
+            return Const("b" if isinstance(cv, bool) else "i" if isinstance(cv, int) or (isinstance(cv, Fraction) and cv.denominator == 1 and not isinstance(src, Const)) else "f")
     if isinstance(v, V) and name in VALUE_ATTRS:
         base = strip_fresh(v)
         if name in ("shape", "ndim", "size"):
